@@ -345,7 +345,9 @@ def r5(repo, res):
 
         restored = pickle.loads(pickle.dumps(stored))
         me = Obj(_cnv_coverage=restored, profile=Obj(cn_region=Obj(start=100, end=105)))
-        v = Evaluator({"self": me}).ev(cons[0].value)
+        from sa.fold import single_defs
+
+        v = Evaluator({"self": me}, defs=single_defs(nf)).ev(cons[0].value)
         ok, found = (v == 11), f"neutral depth over a region with an uncovered position: {v}"
     except Raised as e:
         ok, found = False, f"consumer raises {e.kind} on a restored table with an uncovered position"
